@@ -26,6 +26,7 @@ pub mod props_sched;
 pub mod seq;
 pub mod sources;
 pub mod twin;
+pub mod zsthuge;
 pub mod typeprobe;
 pub mod fuzzdec;
 pub mod fuzzrun;
